@@ -166,12 +166,12 @@ func GenerateSimilar(r *core.Rng, c SimilarCfg) *Doc {
 	return &Doc{Items: []Item{{Kind: "junk", Text: "panic: boom\n"}, {Kind: "junk", Text: "\n"}, {Kind: "dump", EOL: "\n", Gors: gs}}}
 }
 
-// altParent changes the grand-parent directory of a path, keeping
-// "<dir>/<file>" (what the bucket ordering looks at).
+// altParent moves a path under another root, keeping "<dir>/<file>" (what the
+// bucket ordering looks at). The result never exists on disk: in particular
+// it must not point into the directory tree of another run.
 func altParent(p string) string {
-	parts := strings.Split(p, "/")
-	if len(parts) >= 4 {
-		parts[len(parts)-3] = parts[len(parts)-3] + "2"
+	if strings.HasPrefix(p, "/") {
+		return "/alt" + p
 	}
-	return strings.Join(parts, "/")
+	return "/alt/" + p
 }
